@@ -21,9 +21,18 @@ import (
 
 const (
 	verifDir = "/verif"
-	repoDir  = "/repo"
 	modPath  = "github.com/corazawaf/coraza/v3"
 )
+
+// repoDir is /repo; VERIF_REPO redirects a development run (trying a seeded change in a scratch
+// worktree) to another checkout, in which case evidence goes to /verif/out/trial-evidence.
+var repoDir = "/repo"
+
+func init() {
+	if r := os.Getenv("VERIF_REPO"); r != "" {
+		repoDir = r
+	}
+}
 
 // HarnessSpec is one row of checks/checks.json.
 type HarnessSpec struct {
@@ -228,7 +237,7 @@ func runProperty(prop, tier, only string) int {
 	if len(sel) == 0 {
 		fatal(2, "no harness registered for property %s", prop)
 	}
-	os.RemoveAll(filepath.Join(verifDir, "out", prop))
+	os.RemoveAll(outDirFor(prop))
 	prog, err := loadProgram(sel)
 	if err != nil {
 		fatal(2, "harness does not compile or load against /repo: %v", err)
@@ -366,4 +375,12 @@ func entryOf(spec HarnessSpec) string {
 		return modPath + "." + spec.Name
 	}
 	return modPath + "/" + spec.Pkg + "." + spec.Name
+}
+
+// outDirFor: scratch directory of a property run (separate for trial runs on another checkout).
+func outDirFor(prop string) string {
+	if repoDir != "/repo" {
+		return filepath.Join(verifDir, "out", "trial", prop)
+	}
+	return filepath.Join(verifDir, "out", prop)
 }
